@@ -12,6 +12,11 @@
    mode 4 (meta)    [4; with_rec; sh; fsize_shank; nch; fsize_rec; nchns; chns...; meta...]
         -> enc_option (shank meta) ++ (if with_rec: enc_option (reconstructed meta))
    mode 5 (codec)   [5; n; chns...] -> show_subset chns, parse_subset of it
+   mode 6 (rerun)   [6; existed; overwrite] -> [status; files rewritten?]
+   mode 7 (meta, .meta already present)
+                    [7; kind; v; sh; fsize_shank; nch; fsize_rec; nchns; chns...; meta...]
+        existing = the original dictionary (kind 1) or the original with fileSizeBytes := v (kind 2)
+        -> enc_option (metadata after NP2Reconstructor.write_metadata)
 *)
 From Coq Require Import ZArith List Bool FMapPositive.
 From IBL.lib Require Import PyInt RunLib.
@@ -140,6 +145,13 @@ Definition run_meta (with_rec sh fs_sh nch fs_rec : Z) (chns : list Z) (m : meta
 Definition run_codec (chns : list Z) : list Z :=
   enc_zlist (show_subset chns) ++ enc_option enc_zlist (parse_subset (show_subset chns)).
 
+Definition run_meta_existing (kind v sh fs_sh nch fs_rec : Z) (chns : list Z) (m : meta) : list Z :=
+  let existing := if kind =? 1 then m else mset K_fsize (MInt v) m in
+  match meta_shank_ap m sh chns fs_sh with
+  | None => [0]
+  | Some m0 => enc_option enc_meta (meta_recon_at (Some existing) m0 nch fs_rec)
+  end.
+
 Definition run (inp : list Z) : list Z :=
   match inp with
   | 1 :: num :: den :: maxint :: na :: vals =>
@@ -161,6 +173,14 @@ Definition run (inp : list Z) : list Z :=
       | [] => [-997]
       end
   | 5 :: n :: chns => run_codec (firstn (Z.to_nat n) chns)
+  | [6; existed; overwrite] =>
+      let '(st, rew) := process_call (existed =? 1) (overwrite =? 1) in [st; enc_bool rew]
+  | 7 :: kind :: v :: sh :: fs_sh :: nch :: fs_rec :: nchns :: rest =>
+      let chns := firstn (Z.to_nat nchns) rest in
+      match skipn (Z.to_nat nchns) rest with
+      | nm :: mrest => run_meta_existing kind v sh fs_sh nch fs_rec chns (dec_meta (Z.to_nat nm) mrest)
+      | [] => [-997]
+      end
   | _ => [-999]
   end.
 
